@@ -524,6 +524,12 @@ Fixpoint spec_run (c : case) (nx : nat) (S : qset) (ops : list (gop * triple)) (
 
 Definition spec_ok (c : case) (ob : obs) : bool := spec_run c 2 [] (c_ops c) ob.
 
+(* the world and the mathematical store after a whole history *)
+Fixpoint w_run (w : world) (nx : nat) (ops : list (gop * triple)) : world :=
+  match ops with [] => w | (o, _) :: r => w_run (fst (fst (g_step w nx o))) (nx_next o nx) r end.
+Fixpoint s_run (c : case) (nx : nat) (S : qset) (ops : list (gop * triple)) : qset :=
+  match ops with [] => S | (o, _) :: r => s_run c (nx_next o nx) (spec_step c nx S o) r end.
+
 (* well-formed cases: graph objects sharing an identifier object have the same
    store key (same identifier) *)
 Definition op_handles (o : gop) : list handle :=
